@@ -300,4 +300,45 @@ def badRowAt (rows : List CallRow) (i : Nat) : Bool :=
   | some r => !publicRules.contains r.rule && !orderOK r.accepted
   | none => false
 
+/-! ### wave 6 — the method axis
+
+`token_required` (`authOK`) does not take the HTTP method as an input: whether the view is reached depends on the
+header and the token only, for EVERY method Flask dispatches to the view (the automatically added HEAD included).
+If the real wrapper consults `request.method`, that shows in the probed `MethodObs` — (method, did the wrapper let
+a refused credential through?), obtained by calling a wrapped view directly inside request contexts of each
+method — and the dispatch `handleM` skips the check for those methods. -/
+
+abbrev MethodObs := List (String × Bool)
+
+def skipOf (o : MethodObs) (m : String) : Bool :=
+  match o.lookup m with
+  | some b => b
+  | none => false
+
+def checkIgnoresMethod (o : MethodObs) : Bool := o.all (fun x => !x.2)
+
+def guardedM (o : MethodObs) (V : View σ π) (tok : Option (List Char)) (s : σ) (r : Request π) : σ × Nat :=
+  if skipOf o r.method then V r.route r.payload s else guarded V tok s r
+
+def serveRouteM (o : MethodObs) (V : View σ π) (t : Table) (tok : Option (List Char)) (s : σ) (r : Request π)
+    (rt : Route) : σ × Nat :=
+  if rt.static then (if t.staticFiles.contains r.file then V r.route r.payload s else (s, 404))
+  else if rt.prot then guardedM o V tok s r
+  else V r.route r.payload s
+
+def handleM (o : MethodObs) (V : View σ π) (t : Table) (tok : Option (List Char)) (s : σ) (r : Request π) : σ × Nat :=
+  match t.routes[r.route]? with
+  | none => (s, 404)
+  | some rt =>
+    if !rt.methods.contains r.method then (s, 405)
+    else if r.method == "OPTIONS" && rt.autoOptions then (s, 200)
+    else serveRouteM o V t tok s r rt
+
+/-- the wrapper lets method `m` through unchecked, and rule `i` is a protected non-public rule dispatching `m` -/
+def methodSkippedAt (t : Table) (o : MethodObs) (i : Nat) (m : String) : Bool :=
+  skipOf o m &&
+  (match t.routes[i]? with
+   | some r => !isPublic r && !r.static && r.prot && r.methods.contains m && !(m == "OPTIONS" && r.autoOptions)
+   | none => false)
+
 end Bptk.C15
